@@ -67,7 +67,11 @@ func TestWorker(t *testing.T) {
 			t.Fatalf("load scenario: %v", err)
 		}
 		emit(map[string]interface{}{"t": "begin", "seed": sc.Seed, "idx": 0})
+		firstObs = nil
 		res := eng.Run(t, sc)
+		if os.Getenv("VERIF_TRACE") != "" && res.Sample == nil && firstObs != nil {
+			res.Sample = dumpObs(firstObs, nil)
+		}
 		res.T = "end"
 		res.Seed = sc.Seed
 		emit(res)
